@@ -1002,6 +1002,11 @@ func untarHandler(tarArchive io.Reader, dest string, options *TarOptions, decomp
 // TarUntar is a convenience function which calls Tar and Untar, with the output of one piped into the other.
 // If either Tar or Untar fails, TarUntar aborts and returns the error.
 func (archiver *Archiver) TarUntar(src, dst string) error {
+	// Tar logs and ignores a source it cannot stat and produces an empty
+	// archive; a copy must not report success for a source that is not there.
+	if _, err := os.Lstat(src); err != nil {
+		return err
+	}
 	archive, err := Tar(src, compression.None)
 	if err != nil {
 		return err
